@@ -80,6 +80,11 @@ type pcase struct {
 	// GCFault: the first plain Update of a composed resource in the reconcile under test (the
 	// collector's label clean-up before a delete) fails with this outcome
 	GCFault string `json:"gcFault,omitempty"`
+	// Bodiless: the last step leaves this (still desired, previously composed) name in the desired
+	// map with NO resource body - only its readiness - as function SDKs do that create an entry on
+	// first access. Whatever the reconcile makes of such an entry, the name IS in the final desired
+	// state: its composed resource must not be deleted.
+	Bodiless string `json:"bodilessDesiredEntry,omitempty"`
 }
 
 func (p *pcase) failing() (bool, int, string) {
@@ -88,7 +93,7 @@ func (p *pcase) failing() (bool, int, string) {
 	}
 	for i, s := range p.Steps {
 		switch s.Kind {
-		case "error", "fatal", "reqNever", "reqNeverLabels":
+		case "error", "fatal", "reqNever", "reqNeverLabels", "errorOnRerun":
 			return true, i, s.Kind
 		}
 	}
@@ -131,6 +136,11 @@ func genCase(c *kit.Ctx, i int) pcase {
 	if r.IntN(100) < 60 {
 		failAt = r.IntN(ns)
 		failKind = []string{"error", "fatal", "reqNever", "reqNeverLabels"}[r.IntN(4)]
+		if failKind == "error" && c.Rng("rerun", i).IntN(2) == 0 {
+			// the function answers its first call (asking for an extra resource) and errors when it
+			// is called again with that resource
+			failKind = "errorOnRerun"
+		}
 	}
 	for s := 0; s < ns; s++ {
 		b := stepBehaviour{Kind: "normal"}
@@ -187,6 +197,15 @@ func genCase(c *kit.Ctx, i int) pcase {
 			flipA = flipA || n == "a"
 		}
 		p.RenameBody = hasA && !flipA
+	}
+	if fails, _, _ := p.failing(); !fails && !p.ObserveErr && !p.RenameBody && c.Rng("bodiless", i).IntN(5) == 0 {
+		fd := p.finalDesired()
+		for _, n := range p.Initial {
+			if fd[n] {
+				p.Bodiless = n
+				break
+			}
+		}
 	}
 	return p
 }
@@ -324,6 +343,9 @@ func (w *worker) program(step int, req *fnv1.RunFunctionRequest) (*fnv1.RunFunct
 			delete(d.Resources, "a")
 		}
 	}
+	if p.Bodiless != "" && step == len(p.Steps)-1 && d.Resources[p.Bodiless] != nil {
+		d.Resources[p.Bodiless] = &fnv1.Resource{Ready: fnv1.Ready_READY_TRUE}
+	}
 	rsp := &fnv1.RunFunctionResponse{Desired: d}
 	reqName := func(k int) *fnv1.Requirements {
 		return &fnv1.Requirements{ExtraResources: map[string]*fnv1.ResourceSelector{
@@ -333,6 +355,11 @@ func (w *worker) program(step int, req *fnv1.RunFunctionRequest) (*fnv1.RunFunct
 	switch b.Kind {
 	case "error":
 		return nil, errors.New("scripted function error")
+	case "errorOnRerun":
+		if round > 1 {
+			return nil, errors.New("scripted function error on the second call")
+		}
+		rsp.Requirements = reqName(1)
 	case "fatal":
 		// the fatal result repeats, word for word, a non-fatal result of this and of earlier steps
 		rsp.Results = []*fnv1.Result{{Severity: fnv1.Severity_SEVERITY_NORMAL, Message: "scripted result"}, {Severity: fnv1.Severity_SEVERITY_FATAL, Message: "scripted result"}}
@@ -861,6 +888,7 @@ func main() {
 	c.Rule += " " + "P&T revisions with the mode unset or with a stray pipeline listed under mode Resources; every write of the collection phase fails once with each outcome (success is judged by a Synced=True status write)."
 	c.Rule += " " + "Observed resources whose only field manager is the client-side one (upgrade pending); namespaced resources of one kind and one name in different namespaces."
 	c.Rule += " " + "Resources renamed by re-emitting the observed body; two steady-state reconciles after every success (no composed resource deleted or created)."
+	c.Rule += " " + "A function that answers its first call (with a requirement) and errors when called again; a still-desired name whose final desired entry has no resource body (must not be deleted)."
 	c.Assumptions = []string{"sim implements the apiserver rules of DESIGN.md 2.2", "functions are scripted gRPC servers; the requirement-round counter is per reconcile"}
 	c.Floor = 100
 	n := c.N(1500, 30000)
